@@ -1,0 +1,87 @@
+//go:build verif && (verif_all || verif_c11)
+// +build verif
+// +build verif_all verif_c11
+
+package gocql
+
+// Verification hooks (build tag `verif`) for the host selection policies, second file: the rotation
+// counter of the round-robin based policies (roundRobinHostPolicy, dcAwareRR, rackAwareRR, and each of
+// them as fallback of a token-aware policy) made to look as if the policy had already served n picks.
+// The field is reached by name through reflection so that this file compiles - and the hook keeps its
+// meaning - whatever integer type the field has. Add-only.
+
+import (
+	"reflect"
+	"unsafe"
+)
+
+const verifPickCounterField = "lastUsedHostIdx"
+
+func verifPickCounter(p HostSelectionPolicy) (reflect.Value, bool) {
+	if t, ok := p.(*tokenAwareHostPolicy); ok {
+		return verifPickCounter(t.fallback)
+	}
+	v := reflect.ValueOf(p)
+	if v.Kind() != reflect.Ptr || v.IsNil() || v.Elem().Kind() != reflect.Struct {
+		return reflect.Value{}, false
+	}
+	f := v.Elem().FieldByName(verifPickCounterField)
+	if !f.IsValid() || !f.CanAddr() {
+		return reflect.Value{}, false
+	}
+	return reflect.NewAt(f.Type(), unsafe.Pointer(f.UnsafeAddr())).Elem(), true
+}
+
+// VerifSetPickCount gives the rotation counter of the policy (of the fallback policy for a token-aware
+// policy) the value it has after n increments from zero: n truncated to the width of the field, in two's
+// complement for a signed field. Returns false if the policy has no such counter.
+func VerifSetPickCount(p HostSelectionPolicy, n uint64) bool {
+	f, ok := verifPickCounter(p)
+	if !ok {
+		return false
+	}
+	switch f.Kind() {
+	case reflect.Uint, reflect.Uint8, reflect.Uint16, reflect.Uint32, reflect.Uint64, reflect.Uintptr:
+		bits := uint(f.Type().Bits())
+		if bits < 64 {
+			n &= (uint64(1) << bits) - 1
+		}
+		f.SetUint(n)
+		return true
+	case reflect.Int, reflect.Int8, reflect.Int16, reflect.Int32, reflect.Int64:
+		bits := uint(f.Type().Bits())
+		x := int64(n)
+		if bits < 64 {
+			x = int64(n<<(64-bits)) >> (64 - bits) // sign-extend the low `bits` bits
+		}
+		f.SetInt(x)
+		return true
+	case reflect.Struct:
+		// sync/atomic.Uint64 / Int64 / Uint32 / Int32: Store(n)
+		m := f.Addr().MethodByName("Store")
+		if !m.IsValid() || m.Type().NumIn() != 1 {
+			return false
+		}
+		arg := reflect.New(m.Type().In(0)).Elem()
+		switch arg.Kind() {
+		case reflect.Uint32, reflect.Uint64:
+			bits := uint(arg.Type().Bits())
+			if bits < 64 {
+				n &= (uint64(1) << bits) - 1
+			}
+			arg.SetUint(n)
+		case reflect.Int32, reflect.Int64:
+			bits := uint(arg.Type().Bits())
+			x := int64(n)
+			if bits < 64 {
+				x = int64(n<<(64-bits)) >> (64 - bits)
+			}
+			arg.SetInt(x)
+		default:
+			return false
+		}
+		m.Call([]reflect.Value{arg})
+		return true
+	}
+	return false
+}
